@@ -1,15 +1,22 @@
 import TaskModel.Vars.Model
 import TaskModel.Vars.Dotenv
+import TaskModel.Vars.Cli
+import TaskModel.Vars.Compile
+import TaskModel.Vars.EnvPipe
+import TaskModel.Vars.World
 import Driver.Util
 /-!
-`vars.resolve <rootDir> <dirAfter> <ntpl> part* <nbase> (name val)* { <ndefs> (name kind <nparts> part*)* }×6 <nq> name*`
-   sites in documented order; kind = `l` (literal template) | `s` (sh) | `S` (sh, followed by its directory override) | `r` (ref, one part `r<name>`);
-   part = `t<hex>` | `r<name>`.  Answer: the queried values, hex, space separated.
+Line protocol of the `vars` / `varscli` domains (see each `do…` for the exact token layout):
+`vars.compile`  one call compiled from the files AS WRITTEN (`Vars.compile`: special variables, merged globals, include-statement vars, MATCH, POST layer)
+`vars.cli`      a run started from the command line: `taskfileVars declared (cliLayer …)`
+`vars.envpipe`  the environment pipeline (`Vars.EnvPipe`): `{{.N}}` / `$N` per name
+`vars.fshist`   a sequence of calls whose commands rewrite files later `sh:` variables read (`Vars.World`)
+`vars.env`, `vars.envchain`, `vars.dotenvchain`, `vars.loop`, `vars.product`   (older ops)
+`vars.run`, `vars.climon`, `vars.postmon`, `vars.fsmon`, `vars.callmon`   echo lines: the expectation is part of the case (run-phase consistency; monitors of open findings)
+   definition block = `<n> (name kind <nparts> part*)*`; kind = `l` (literal template) | `s` (sh) | `S` (sh + directory override) | `r` (ref, one part `r<name>`);
+   part = `t<hex>` | `r<name>`.
    Shell oracle: a command starting with `$` prints the variable whose decimal id follows
-   (read from the environment handed to it); any other command prints `<cmd>@<dir>`.
-`vars.env <nos> (name val)* <nglobal> (name val)* <ndotenv> (name val)* <ntask> (name val)* <prec> <nq> name*` → looked-up values (`-` none)
-`vars.loop …` (see `doLoop`)
-`vars.product <nrows> { name <nitems> item* }*` → `<n> { k=v,… }*`
+   (read from the environment handed to it); any other command prints `<cmd>@<last component of dir>`.
 -/
 namespace Driver.Vars
 open TaskModel.Vars Driver
@@ -62,26 +69,14 @@ def baseName : Str → Str → Str
   | 47 :: rest, _ => baseName rest []
   | c :: rest, acc => baseName rest (c :: acc)
 
-/-- the shell oracle of the protocol -/
+/-- the shell oracle of the protocol (`${PWD##*/}`: the shell's working directory has no trailing slash) -/
 def oracle : Shell := fun cmd dir e =>
   match cmd with
   | 36 :: rest => get e (natOfDigits rest)
-  | _ => cmd ++ [64] ++ baseName dir []
+  | _ => cmd ++ [64] ++ baseName (dir.reverse.dropWhile (· = 47)).reverse []
 
 def siteOfIdx : Nat → Site
   | 0 => .taskfileEnv | 1 => .taskfileVars | 2 => .includeVars | 3 => .includedTaskfileVars | 4 => .callVars | _ => .taskVars
-
-def doResolve : P String := do
-  let root ← str; let dirAfter ← nat; let tpl ← parts
-  let nb ← nat; let base ← many nb binding
-  let blocks ← many 6 (do let n ← nat; many n vdef)
-  let nq ← nat; let qs ← many nq nat
-  let defs : Site → List (Name × VarDef) := fun s =>
-    match s with
-    | .taskfileEnv => blocks[0]! | .taskfileVars => blocks[1]! | .includeVars => blocks[2]!
-    | .includedTaskfileVars => blocks[3]! | .callVars => blocks[4]! | .taskVars => blocks[5]!
-  let st := getVariables ⟨oracle, base.reverse⟩ ⟨root, tpl, dirAfter⟩ base.reverse (layersOf defs) []
-  pure (" ".intercalate (qs.map (fun q => showStr (get st.env q))))
 
 def doEnv : P String := do
   let no ← nat; let os ← many no binding
@@ -134,18 +129,120 @@ def doDotenvChain : P String := do
   let st := dotenvChain [] es
   pure (" ".intercalate ((dotenvEnv [] es).map (fun e => s!"{e.1}={showStr (get st e.1)}/{showStr e.2}")))
 
+/-- `vars.cli <nbase> (name val)* <genv block> <declared block> <nassign> (name <nparts> part*)* <cliargs> <force> <silent> <verbose> <offline>
+<taskvars block> <nq> name*` — a run started from the command line: the global layer is `taskfileVars declared (cliLayer …)` -/
+def doCli : P String := do
+  let nb ← nat; let base ← many nb binding
+  let block : P (List (Name × VarDef)) := do let n ← nat; many n vdef
+  let genv ← block
+  let declared ← block
+  let na ← nat; let assigns ← many na (do let k ← nat; let ps ← parts; pure (k, ps))
+  let cliArgs ← str
+  let force ← bool; let silent ← bool; let verbose ← bool; let offline ← bool
+  let tv ← block
+  let nq ← nat; let qs ← many nq nat
+  let gl := taskfileVars declared (cliLayer assigns cliArgs { force := force, silent := silent, verbose := verbose, offline := offline })
+  let defs : Site → List (Name × VarDef) := fun s =>
+    match s with
+    | .taskfileEnv => genv | .taskfileVars => gl | .taskVars => tv | _ => []
+  let st := getVariables ⟨oracle, base.reverse, false⟩ ⟨[], [], []⟩ base.reverse (layersOf defs) []
+  pure (" ".intercalate (qs.map (fun q => showStr (get st.env q))))
+
+/-- `vars.compile <home> <rootDir> <entrypoint> <uwd> <taskName> <rawDir> <dirTpl: nparts part*> <taskfile> <alias>
+  <nos> (name val)* <genv block> <nfiles> { <incDir> <incvars block> <vars block> }* <level>
+  <callvars block> <nwild|-1> w* <taskvars block> <fp: 0 | 1 name token> <nq> name*`
+— one call compiled from the files AS WRITTEN (`Vars.compile`, empty cache).
+Answer: the queried values, then `dir=<compiled Dir>`. -/
+def doCompile : P String := do
+  let home ← str; let root ← str; let entry ← str; let uwd ← str
+  let tname ← str; let rawDir ← str; let tpl ← parts; let tfile ← str; let alias ← str
+  let nb ← nat; let os ← many nb binding
+  let block : P (List (Name × VarDef)) := do let n ← nat; many n vdef
+  let genv ← block
+  let nf ← nat
+  let files ← many nf (do let d ← str; let iv ← block; let v ← block; pure ({ incDir := d, incVars := iv, vars := v } : FileDesc))
+  let level ← nat
+  let cv ← block
+  let wt ← tok
+  let wild ← (if wt == "-1" then pure none else match wt.toNat? with
+    | some n => do let ws ← many n str; pure (some ws)
+    | none => failure : P (Option (List Str)))
+  let tv ← block
+  let fpn ← nat
+  let fp ← (if fpn == 0 then pure none else do let n ← nat; let v ← str; pure (some (n, v)) : P (Option (Name × Str)))
+  let nq ← nat; let qs ← many nq nat
+  let tc : TaskCtx := { rootDir := root, entrypoint := entry, userWorkingDir := uwd, taskName := tname, rawDir := rawDir,
+                        dirTpl := tpl, taskfile := tfile, alias := alias }
+  let cd : CallDesc := { tc := tc, genv := genv, files := files, level := level, callVars := cv, wildcards := wild, taskVars := tv, fp := fp }
+  let w : World := ⟨oracle, os.reverse, false⟩
+  let r := compile w home cd []
+  pure (" ".intercalate (qs.map (fun q => showStr (get r.vars q)) ++ ["dir=" ++ showStr r.dir]))
+
+/-- `vars.envpipe <prec> <home> <rootDir> <dirTpl: nparts part*> <nos> (name val)* <genv block> <gvars block> <dotenv block> <tenv block> <tvars block> <nq> name*`
+→ per name `<{{.N}}>/<$N | none>`, then `dir=<compiled Dir>`: the environment clause over the real pipeline (`Vars.EnvPipe`) -/
+def doEnvPipe : P String := do
+  let prec ← bool
+  let home ← str; let root ← str; let tpl ← parts
+  let nb ← nat; let os ← many nb binding
+  let block : P (List (Name × VarDef)) := do let n ← nat; many n vdef
+  let genv ← block; let gvars ← block; let dotenv ← block; let tenv ← block; let tvars ← block
+  let nq ← nat; let qs ← many nq nat
+  let w : World := ⟨oracle, os.reverse, prec⟩
+  let defs : Site → List (Name × VarDef) := fun s =>
+    match s with
+    | .taskfileEnv => genv | .taskfileVars => gvars | .taskVars => tvars | _ => []
+  let st := getVariables w ⟨root, tpl, home⟩ os.reverse (layersOf defs) []
+  let dir := taskDirOver ⟨root, tpl, home⟩ st.env
+  let ce := compiledEnv w st.env genv dotenv tenv dir st.cache
+  pure (" ".intercalate (qs.map (fun q => showStr (get st.env q) ++ "/" ++
+      (match commandSees w ce.1 q with | some v => showStr v | none => "none")) ++ ["dir=" ++ showStr dir]))
+
+/-- `vars.fshist <rootDir> <global 0|1> <nfiles> (path content)* <ncalls> { <dirRel> <fileName> <nwrites> (path content)* }*`
+— a sequence of calls in one invocation: every call compiles its task (`V: {sh: cat <file>}` in the task's directory; with
+`global`, the root's `G: {sh: cat g.txt}`), then its commands rewrite files.  Answer: per call `<V>/<G>` as the history of
+`Vars.World` gives them (the dynamic-variable cache carries over, the world changes). -/
+def doFsHist : P String := do
+  let root ← str; let glob ← bool
+  let nf ← nat; let files ← many nf (do let p ← str; let c ← str; pure (p, c))
+  let nc ← nat
+  let calls ← many nc (do
+    let d ← str; let f ← str; let nw ← nat
+    let ws ← many nw (do let p ← str; let c ← str; pure (p, c))
+    pure (d, f, ws))
+  let gname : Str := [103, 46, 116, 120, 116]
+  let evs : List Ev := calls.flatMap (fun (c : Str × Str × List (Str × Str)) =>
+    let defs : Site → List (Name × VarDef) := fun s =>
+      match s with
+      | .taskfileVars => if glob then [(1, .sh [.text gname] none)] else []
+      | .taskVars => [(0, .sh [.text c.2.1] none)]
+      | _ => []
+    Ev.compile ⟨root, (if c.1 = [] then [] else [.text c.1]), []⟩ [] (layersOf defs) :: c.2.2.map (fun w => Ev.effect (writeFile w.1 w.2)))
+  let envs := histEnvs ⟨catShell, [], false⟩ evs (files.reverse, [])
+  pure (" ".intercalate (envs.map (fun e => showStr (get e 0) ++ "/" ++ showStr (get e 1))))
+
 def handle (op : String) (args : List String) : Option String :=
   let run (p : P String) := match p.run args with | some (r, []) => some r | _ => none
   match op with
   | "vars.envchain" => run doEnvChain
   | "vars.dotenvchain" => run doDotenvChain
   | "vars.loop" => run doLoop
-  | "vars.resolve" => run doResolve
   | "vars.env" => run doEnv
   | "vars.product" => run doProduct
   -- execution consistency: what each call printed (command and deferred command) must be the values
   -- resolved for that call, which the `vars.resolve` lines of the same case tie to the model
   | "vars.run" => some (" ".intercalate args)
+  | "vars.cli" => run doCli
+  | "vars.compile" => run doCompile
+  | "vars.envpipe" => run doEnvPipe
+  | "vars.fshist" => run doFsHist
+  -- monitor of C11 over the file system: `vars.fsmon <call> <what the call reads ALONE in the world as it is>`
+  | "vars.fsmon" => match args with | [_, want] => some want | _ => none
+  -- monitor of C02 "variables passed in a call are the ones the callee sees": `vars.callmon <mode> <the value handed over>`
+  | "vars.callmon" => match args with | [_, want] => some want | _ => none
+  -- monitor of "special variables are available": `vars.climon <name> <value the rule demands>`
+  | "vars.climon" => match args with | [_, want] => some want | _ => none
+  -- monitor of "available unless overridden" for the POST layer: `vars.postmon <name> <value the rule demands>`
+  | "vars.postmon" => match args with | [_, want] => some want | _ => none
   | _ => none
 
 end Driver.Vars
